@@ -14,7 +14,14 @@ import (
 )
 
 const (
-	sqlCreateTable = `CREATE TABLE IF NOT EXISTS '%s' (key STRING PRIMARY KEY, value STRING, ttl DATETIME KEY);`
+	// key and value must be declared TEXT. STRING (used by earlier versions) is
+	// not a type name SQLite recognises, so such a column gets NUMERIC affinity:
+	// the keys "1.0", "01" and "1e0" were all stored as the integer 1 and that
+	// row was returned to whoever asked for key "1"; a numeric value beyond the
+	// int64 range was stored as a float and could not be read back.
+	sqlCreateTable = `CREATE TABLE IF NOT EXISTS '%s' (key TEXT PRIMARY KEY, value TEXT, ttl DATETIME KEY);`
+	sqlLegacyTable = `SELECT COUNT(*) FROM pragma_table_info('%s') WHERE name IN ('key', 'value') AND type != 'TEXT';`
+	sqlDropTable   = `DROP TABLE IF EXISTS '%s';`
 	sqlRead        = `SELECT value FROM '%s' WHERE key == ? AND ttl > unixepoch();`
 	sqlWrite       = `INSERT OR REPLACE INTO '%s' (key, value, ttl) VALUES (?, ?, ?);`
 )
@@ -45,7 +52,20 @@ func CreateTable(namespace string) {
 		return
 	}
 
-	_, err := db.Exec(fmt.Sprintf(sqlCreateTable, namespace))
+	// A table created by an earlier version keeps its column types, so
+	// CREATE TABLE IF NOT EXISTS alone would leave it as it is. It is only a
+	// cache: drop it and start again.
+	var legacy int
+	err := db.QueryRow(fmt.Sprintf(sqlLegacyTable, namespace)).Scan(&legacy)
+	if err == nil && legacy > 0 {
+		_, err = db.Exec(fmt.Sprintf(sqlDropTable, namespace))
+		if err != nil {
+			dbFailed("dropping legacy table "+namespace, err)
+			return
+		}
+	}
+
+	_, err = db.Exec(fmt.Sprintf(sqlCreateTable, namespace))
 	if err != nil {
 		dbFailed("creating table "+namespace, err)
 	}
